@@ -421,10 +421,13 @@ static void run_gate(std::string const& id, int kind)
         wait_flag(returned, 20000);
         s.join();
         std::string st_ret = states_str();
+        // the task was enqueued before the suspend took effect: it runs on this worker before it sleeps, or (stealing) on
+        // another one; in any case without a resume
+        bool done_wo_resume = wait_done(1, 8000);
         resume_all_quiet();
         bool all = wait_done(nsub.load(), 20000);
-        std::printf("OUT GATE %s reached=%d returned_while_parked=%d states_while_parked=%s done_at_return=%d states_at_return=%s err=%d all=%d %s\n",
-            id.c_str(), int(reached), int(early), st_parked.c_str(), done_at_return.load(), st_ret.c_str(), int(e), int(all), ledger_check().c_str());
+        std::printf("OUT GATE %s reached=%d returned_while_parked=%d states_while_parked=%s done_without_resume=%d states_at_return=%s err=%d all=%d done_at_return=%d %s\n",
+            id.c_str(), int(reached), int(early), st_parked.c_str(), int(done_wo_resume), st_ret.c_str(), int(e), int(all), done_at_return.load(), ledger_check().c_str());
         std::fflush(stdout);
         end_case();
         return;
